@@ -3,6 +3,7 @@ package rules
 import (
 	"fmt"
 	"go/constant"
+	"go/token"
 	"go/types"
 	"math"
 
@@ -365,8 +366,13 @@ func (e *Env) severityBands(k *scoreKit) {
 	sf := e.P.SSAFunc(sevFn)
 	leaves, err := ir.Leaves(sf, ir.LeafOptions{})
 	if err != nil {
-		c.Undecided("severity-band", fname(sevFn), e.P.Pos(sevFn.Pos()), err.Error())
-		return
+		// a loop over a table of bands: no paths to read the comparisons from; the summary of the function is
+		// evaluated at every grid point instead (below)
+		if s := e.F.Summarise(sevFn); s.Err != "" {
+			c.Undecided("severity-band", fname(sevFn), e.P.Pos(sevFn.Pos()), err.Error()+"; and its summary: "+s.Err)
+			return
+		}
+		leaves = nil
 	}
 	sevT := sevFn.Type().(*types.Signature).Results().At(0).Type()
 	strM := methodOf(sevT, "String")
@@ -444,11 +450,20 @@ func (e *Env) severityBands(k *scoreKit) {
 		if bad {
 			return
 		}
+		name := ""
 		if n != 1 || got == nil || got.Op != ir.OConst {
-			c.Undecided("severity-band", cons, e.P.Pos(sevFn.Pos()), fmt.Sprintf("%d paths apply", n))
-			continue
+			// the bands may be data (a table of thresholds walked by a helper): the function's summary evaluated at
+			// this grid point, exactly (a tenth as a rational; the thresholds are compared as written)
+			pt := facts.Value{Kind: facts.VConst, C: constant.BinaryOp(constant.MakeInt64(int64(t)), token.QUO, constant.MakeInt64(10)), Type: types.Typ[types.Float64]}
+			r := e.F.Eval(sevFn, pt)
+			if r.Kind != facts.VConst || r.C == nil {
+				c.Undecided("severity-band", cons, e.P.Pos(sevFn.Pos()), fmt.Sprintf("%d paths apply, and the summary of the function gives %s", n, r))
+				continue
+			}
+			name, _ = stringOf(e.F.Eval(strM, r))
+		} else {
+			name, _ = stringOf(e.F.Eval(strM, facts.Value{Kind: facts.VConst, C: got.C, Type: sevT}))
 		}
-		name, _ := stringOf(e.F.Eval(strM, facts.Value{Kind: facts.VConst, C: got.C, Type: sevT}))
 		want := ""
 		for _, b := range bands {
 			if t >= b.Lo && t <= b.Hi {
